@@ -12,6 +12,7 @@ Open Scope N_scope.
 (* labels of DriverLoop.apply_label_g, parsed *)
 Inductive glabel :=
   | GIssue (id : N) (line : bytes)      (* c<id>:<spec> — Client::command-style single request *)
+  | GIssueL (id : N) (ls : list bytes)  (* i<id>:<spec>,... — Client::command_list-style request (1 line: bare, >= 2: a list) *)
   | GNotify (name : bytes)              (* N:<hexname> *)
   | GServe (all : bool)                 (* S / S* *)
   | GDeliver (k : N)                    (* D<k> *)
@@ -37,6 +38,11 @@ Definition classify (lab : bytes) : option glabel :=
     else if kind =? 99 then
       match all_some_l (map parse_spec (split_specs arg)) with
       | Some (l :: _) => Some (GIssue id l)
+      | _ => None
+      end
+    else if kind =? 105 then
+      match all_some_l (map parse_spec (split_specs arg)) with
+      | Some (l :: ls) => Some (GIssueL id (l :: ls))
       | _ => None
       end
     else None
@@ -66,15 +72,54 @@ Definition echo_line (l : bytes) : bool :=
   negb (beq l (removelast command_list_begin)) &&
   (wf_resp (aresp_of (reply_of_line l)) && beq (srv_out l) (enc (aresp_of (reply_of_line l)))).
 
+(* ---- command lists ---- *)
+
+Definition end_word : bytes := removelast command_list_end.
+Definition begin_word : bytes := removelast command_list_begin.
+
+Definition list_bytes (ls : list bytes) : bytes :=
+  command_list_begin ++ flat_map (fun l => l ++ [LF]) ls ++ command_list_end.
+
+Definition is_list (u : bytes) : bool := is_prefix command_list_begin u.
+
+(* the lines between command_list_ok_begin and command_list_end *)
+Definition list_lines (u : bytes) : list bytes := removelast (tl (lines u)).
+
+(* what the simulated server writes when the list is closed, and how the client must decode it *)
+Definition reply_of_list (ls : list bytes) : response :=
+  match bparse_all Initial (exec_list cf 0 ls) with (_, _, Complete r) => r | _ => mkResp [] None end.
+
+Definition aresp_of_list (r : response) : aresp :=
+  mkAResp FList (map (fun f => mkAFrame (f_fields f) (f_binary f) (length (f_fields f))) (r_frames r)) (r_error r) None.
+
+Definition list_line (l : bytes) : bool := no_lf l && negb (beq l end_word).
+
+(* a list of the fragment: at least two lines, none of them closing the list early, answered by ONE well-formed response *)
+Definition list_good (ls : list bytes) : bool :=
+  Nat.leb 2 (length ls) && forallb list_line ls &&
+  (wf_resp (aresp_of_list (reply_of_list ls)) && beq (exec_list cf 0 ls) (enc (aresp_of_list (reply_of_list ls)))).
+
+(* a request of the fragment, as the bytes written *)
+Definition req_good (u : bytes) : bool :=
+  if is_list u then list_good (list_lines u) && beq u (list_bytes (list_lines u))
+  else match u with [] => false | _ => beq u (removelast u ++ [LF]) && echo_line (removelast u) end.
+
 Definition good (g : glabel) : bool :=
   match g with
   | GIssue _ l => echo_line l
+  | GIssueL _ [l] => echo_line l
+  | GIssueL _ ls => list_good ls
   | GNotify n => wf_text n
   | _ => true
   end.
 
-(* the reply of the simulated server to a request (its bytes as written: line + LF) *)
-Definition echo_reply (u : bytes) : response := reply_of_line (removelast u).
+(* the reply of the simulated server to a request (its bytes as written) *)
+Definition echo_reply (u : bytes) : response :=
+  if is_list u then reply_of_list (list_lines u) else reply_of_line (removelast u).
+
+(* how raw_command / raw_command_list hand a reply to the caller: a list keeps all frames *)
+Definition res_of (u : bytes) (r : response) : cmd_result :=
+  if is_list u then split_list r else split_single r.
 
 (* ---------- the structured run of the executable system ---------- *)
 
@@ -97,28 +142,32 @@ Definition xinit : xsys := snd (fst (apply_label_g xstart (b "D0"))).
 
 (* ---------- the relation ---------- *)
 
-Definition ent (q : request) : N * ckind := (q_id q, KRaw true).
+(* the requests whose callers are waiting, oldest first: the one in flight (the last one written), the one held behind a
+   cancelled idle, the queue *)
+Definition outstanding (s : asys) : list request :=
+  match a_pt s with
+  | PWait _ => [last (a_sent s) (mkReq 0 [])]
+  | p => held p
+  end ++ a_queue s.
 
-Definition callers_for (p : point) (queue : list request) : list (N * ckind) :=
-  match p with
-  | PWait id => (id, KRaw true) :: map ent queue
-  | _ => map ent (held p ++ queue)
-  end.
+(* a caller entry and its request: same id; Client::command-style callers (KRaw true) only for single lines *)
+Definition crel (c : N * ckind) (q : request) : Prop :=
+  fst c = q_id q /\ ((snd c = KRaw true /\ is_list (q_bytes q) = false) \/ snd c = KRaw false).
 
-Definition req_ok (u : bytes) : Prop := exists l, u = l ++ [LF] /\ echo_line l = true.
+Definition req_ok (u : bytes) : Prop := req_good u = true.
 Definition write_ok (u : bytes) : Prop := u = idle_line \/ u = noidle_line \/ req_ok u.
 
 (* what the server wrote for an abstract response *)
 Definition enc_s (r : sresp) : bytes :=
   match r with
   | SIdle ns => changed_lines ns ++ ok_line
-  | SReply u => srv_out (removelast u)
+  | SReply u => if is_list u then exec_list cf 0 (list_lines u) else srv_out (removelast u)
   end.
 
 Definition wf_s (r : sresp) : Prop :=
   match r with
   | SIdle ns => Forall (fun n => wf_text n = true) ns
-  | SReply u => echo_line (removelast u) = true
+  | SReply u => req_good u = true
   end.
 
 (* the builder state [st] and buffer [buf] are what is left after the bytes [done] were consumed *)
@@ -127,6 +176,17 @@ Definition parked (st : bstate) (buf done : bytes) : Prop :=
 
 Definition S2C (st : bstate) (buf inbox wire : bytes) (rs : list sresp) : Prop :=
   exists done, parked st buf done /\ done ++ buf ++ inbox ++ wire = flat_map enc_s rs.
+
+(* the client->server bytes: the writes the server has not read yet, in order — where the head write may be a command list of
+   which the server has already read the opening line and some commands (it reads line by line, the abstract server whole writes) *)
+Definition C2S (x : xsys) (s : asys) : Prop :=
+  match s_list (x_srv x) with
+  | None => x_c2s x = concat (a_c2s s)
+  | Some acc =>
+    exists rest todo, a_c2s s = list_bytes (acc ++ todo) :: rest /\
+      x_c2s x = flat_map (fun l => l ++ [LF]) todo ++ command_list_end ++ concat rest /\
+      a_idle s = false /\ list_good (acc ++ todo) = true
+  end.
 
 Record Rel (x : xsys) (s : asys) : Prop := mkRel {
   r_h : x_h x = HDone;
@@ -143,14 +203,13 @@ Record Rel (x : xsys) (s : asys) : Prop := mkRel {
   r_cf : x_cf x = cf;
   r_pt : x_pt x = a_pt s;
   r_queue : x_queue x = a_queue s;
-  r_callers : x_callers x = callers_for (a_pt s) (a_queue s);
+  r_callers : Forall2 crel (x_callers x) (outstanding s);
   r_reqs : Forall (fun q => req_ok (q_bytes q)) (held (a_pt s) ++ a_queue s);
-  r_c2s : x_c2s x = concat (a_c2s s);
+  r_c2s : C2S x s;
   r_writes : Forall write_ok (a_c2s s);
   r_idle : s_idle (x_srv x) = a_idle s;
   r_pending : s_pending (x_srv x) = a_pending s;
   r_pending_wf : Forall (fun n => wf_text n = true) (a_pending s);
-  r_list : s_list (x_srv x) = None;
   r_violated : s_violated (x_srv x) = a_violated s;
   r_reported : s_reported (x_srv x) = a_reported s;
   r_s2c_wf : Forall wf_s (a_s2c s);
@@ -166,9 +225,9 @@ Definition seg_text (g : seg) : bytes :=
      g_ev g ++
      (if g_panic g then [b "PANIC"] else [])) ++ b "]".
 
-(* what a segment shows for a reply / an event *)
-Definition res_text (r : N * response) : N * bytes :=
-  (fst r, show_cmd_result (split_single (snd r))).
+(* what a segment shows for the reply to a request / an event *)
+Definition res_text (q : request) : N * bytes :=
+  (q_id q, show_cmd_result (res_of (q_bytes q) (echo_reply (q_bytes q)))).
 Definition ev_text (n : bytes) : bytes := b "ev:" ++ hex n.
 
 End Fragment.
